@@ -18,6 +18,7 @@ type Layout struct {
 	IfIndent    bool   // indent if-bodies
 	EscapeMore  bool   // escape characters that do not need it
 	HeaderSpace bool
+	JumpSpaces  bool // two spaces between `jump` and its destination (known finding F30)
 	R           *prng.R
 }
 
@@ -227,11 +228,18 @@ func (w *writer) noise(ind string) {
 	}
 }
 
-func (w *writer) emit(ind, s string) {
+func (w *writer) emit(ind, s string) { w.emitC(ind, s, true) }
+
+// emitC writes one line; spaceOK says whether a space may precede a trailing comment (after free text the space
+// would become part of the text)
+func (w *writer) emitC(ind, s string, spaceOK bool) {
 	w.noise(ind)
 	w.b.WriteString(ind + s)
 	if w.l.chance(w.l.Trailing) {
-		w.b.WriteString(" // trailing comment")
+		if spaceOK {
+			w.b.WriteString(" ")
+		}
+		w.b.WriteString("// trailing comment")
 	}
 	w.b.WriteString(w.l.eol())
 }
@@ -241,21 +249,32 @@ func (w *writer) body(ind string, stmts []*Stmt) {
 	for _, s := range stmts {
 		switch s.Kind {
 		case "line":
-			w.emit(ind, l.line(s.Line))
+			w.emitC(ind, l.line(s.Line), s.Line.Cond != nil || len(s.Line.Tags) > 0)
 		case "opts":
 			for _, o := range s.Opts {
-				w.emit(ind, "-> "+l.line(o.Line))
+				w.emitC(ind, "-> "+l.line(o.Line), o.Line.Cond != nil || len(o.Line.Tags) > 0)
 				w.body(ind+l.unit(), o.Body)
 			}
 		case "set":
 			w.emit(ind, "<<set"+l.spaces()+"$"+s.Var+l.spaces()+setOp(l, s.Op)+l.spaces()+l.Expr(s.E)+">>")
 		case "declare":
-			w.emit(ind, "<<declare"+l.spaces()+"$"+s.Var+l.spaces()+l.spell("set")+l.spaces()+l.Expr(s.E)+">>")
+			// the grammar takes a value here, not an expression: no parentheses
+			plain := &Layout{}
+			w.emit(ind, "<<declare"+l.spaces()+"$"+s.Var+l.spaces()+l.spell("set")+l.spaces()+plain.Expr(s.E)+">>")
 		case "jump":
+			// exactly one space after the keyword: the lexer mode that follows `jump ` hides no whitespace (finding F30)
+			sp := " "
+			if l.JumpSpaces {
+				sp = "  "
+			}
+			after := ""
+			if l.CmdSpaces && l.R != nil && l.R.Intn(2) == 0 {
+				after = " "
+			}
 			if s.JumpID {
-				w.emit(ind, "<<jump"+l.spaces()+s.E.S+">>")
+				w.emit(ind, "<<jump"+sp+s.E.S+after+">>")
 			} else {
-				w.emit(ind, "<<jump"+l.spaces()+"{"+l.Expr(s.E)+"}>>")
+				w.emit(ind, "<<jump"+sp+"{"+l.Expr(s.E)+"}"+after+">>")
 			}
 		case "if":
 			bind := ind
@@ -293,7 +312,12 @@ func (w *writer) body(ind string, stmts []*Stmt) {
 			b.WriteString(">>")
 			w.emit(ind, b.String())
 		case "call":
-			w.emit(ind, "<<call"+l.spaces()+l.Expr(Fn(s.Fn, s.Args...))+">>")
+			// the grammar takes a function call here, not an expression: the call itself is never parenthesised
+			parts := make([]string, len(s.Args))
+			for i, a := range s.Args {
+				parts[i] = l.Expr(a)
+			}
+			w.emit(ind, "<<call"+l.spaces()+s.Fn+"("+strings.Join(parts, ", ")+")>>")
 		}
 	}
 }
